@@ -629,6 +629,55 @@ public:
                 }
             }
         }
+        // ---- D: the same requests with the machine running in long slices between them (A single-steps, so anything refreshed
+        // at the top of every Run call would hide there); judged at the end against the undisturbed run
+        if (out.ok() && !inj.empty()) {
+            Machine D;
+            setup(plan, D);
+            u64 at = 0;
+            dead.clear();
+            for (u64 c : inj) {
+                if (c > at && dead.empty()) {
+                    dead = D.b.run(c - at);
+                    out.sim_cycles += c - at;
+                    at = c;
+                }
+                if (!dead.empty())
+                    break;
+                D.b.t->MMIOWrite(0x204, 1 << 5);
+            }
+            u64 rest = (nB > at ? nB - at : 0) + inj.size() * 120 + 32;
+            if (dead.empty()) {
+                dead = D.b.run(rest);
+                out.sim_cycles += rest;
+            }
+            if (!dead.empty()) {
+                out.violate("C08.irq-not-transparent", "interrupted program run in long slices aborted at " + dead + " where the undisturbed run completed");
+            } else if (D.b.regs().pc == D.end_addr) {
+                ObsValues vd;
+                observe_regs(D.b.regs(), vd, true);
+                const ObsValues& vb = ref.back();
+                out.probes["long_slice_runs_judged"]++;
+                for (std::size_t i = 0; i < vd.size() && out.ok(); ++i) {
+                    if (vd[i] == vb[i] || excluded(names[i]))
+                        continue;
+                    const char* cls = names[i] == "sp" ? "C08.sp" : names[i] == "ie" ? "C08.ie-after-reti" : names[i].rfind("shadow.", 0) == 0 ? "C08.bank"
+                                                                                                                                               : "C08.irq-not-transparent";
+                    out.violate(cls, fmt("after the interrupted program was run in long slices (%zu requests, first at cycle %llu): %s = 0x%llx, undisturbed "
+                                         "run 0x%llx (variant %lld line %lld)", inj.size(), (unsigned long long)inj[0], names[i].c_str(),
+                                         (unsigned long long)vd[i], (unsigned long long)vb[i], (long long)plan.knob("variant"), (long long)plan.knob("line")));
+                }
+                u16 sp = D.b.regs().sp;
+                for (u32 w = 0x20000; w < 0x40000 && out.ok(); ++w) {
+                    u32 a = w - 0x20000;
+                    if (a >= STACK_LOW && a < sp)
+                        continue;
+                    if (D.b.peek_prog(w) != B.b.peek_prog(w))
+                        out.violate("C08.irq-not-transparent", fmt("data word 0x%x = 0x%04x after the long-slice interrupted run, 0x%04x after the undisturbed run",
+                                                                   a, D.b.peek_prog(w), B.b.peek_prog(w)));
+                }
+            }
+        }
         out.nontrivial = entries > 0 && compares > 0 && live_ctx;
         Hasher sg;
         sg.add((u64)plan.knob("variant"));
